@@ -119,7 +119,9 @@ CHECKS["C16"] = dict(engine="Reports", design_ref="§5 C16",
          "machine state, no crash, a JUnit test case per label with exactly the failures first discovered under it, and cassette entries that are exactly the delivered "
          "exchanges. ReportsYaml.tla states the YAML subset the hand-written VCR writer emits as fold automata; TLC enumerates all strings of length <=2 (quick) / <=3 "
          "(thorough) over 16 hostile characters in every user-controlled field; the raw cassette is scanned line by line in TLA+ (well-formedness and "
-         "Unquote(Scan(line)) = field); HAR and JUnit are compared field by field, base64 byte-exact. The YAML model is cross-checked against PyYAML on every run.",
+         "Unquote(Scan(line)) = field); HAR and JUnit are compared field by field, base64 byte-exact. The YAML model is cross-checked against PyYAML on every run. "
+         "The writer thread, queue and bounded join are model-checked over all interleavings in ReportsWriter.tla, and real VCR / HAR writer runs on a slow sink are "
+         "trace-validated (ReportsWriterTrace.tla), including the join timing out before the queue is drained.",
     note=COMMON_TRUST + "; hand-built Recorder/Case/PreparedRequest/Response objects stand for engine output; json and xml.etree project HAR and JUnit; PyYAML only "
          "cross-checks; cassettes of text fields containing lone surrogates are not judged; bodies that are not valid UTF-8 are judged only under preserve-bytes")
 CHECKS["C15"] = dict(engine="Sanitize", design_ref="§5 C15",
@@ -131,7 +133,9 @@ CHECKS["C15"] = dict(engine="Sanitize", design_ref="§5 C15",
          "(name, cfg) pairs of a 55-name pool x 3 configurations and the full flow matrix. Every pair runs through the real sanitize_value / sanitize_url / "
          "as_curl_command; end to end the real CLI runs in subprocesses against the scripted server with a unique canary per route, all report formats, sanitize on / "
          "off / custom keys / custom markers; stdout and every artifact are scanned for each canary (plain, percent-encoded, any-alignment base64) and the matrix is "
-         "judged by TLC in both directions (leak and over-redaction).",
+         "judged by TLC in both directions (leak and over-redaction). Configuration histories (configure / extend / reset interleaved with sanitizer calls, <=3 steps "
+         "quick, <=4 thorough; SanitizeHist.tla) are TLC-enumerated and replayed in one process through sanitize_value, sanitize_url, as_curl_command and, for a "
+         "sample, the real cassette writers.",
     note=COMMON_TRUST + "; a secret is recognised in plain, percent-encoded and base64 forms only; the server log decides which routes were exercised; the MustCarry "
          "table (which sink shows which field) is part of the spec; response and request bodies are outside the property's carriers")
 
@@ -182,7 +186,8 @@ CHECKS["C13"] = dict(engine="Repro", design_ref="§5 C13",
          "stateless scripted server; the server logs are cut per phase and projected to digests. Same seed with one worker requires position-wise equality and equal "
          "failure sets; several workers require per-operation bag equality in the examples, coverage and fuzzing phases; different seeds are unconstrained but checked "
          "for non-vacuity. A rejection names phase, operation, first divergent field and the attributed entropy source. Not exhaustive: the seed x schema space cannot "
-         "be enumerated by TLC (12 configurations quick, 150 thorough, seeds derived from VERIF_SEED).",
+         "be enumerated by TLC (12 configurations quick, 150 thorough, seeds derived from VERIF_SEED; configurations always include seeds 0 and -1, whose stateful "
+         "re-run suite is seeded with 0, and user-supplied unexpected_methods sets).",
     note=COMMON_TRUST + "; the digest excludes the test-case id and Host headers; Hypothesis' local-constants pool is emptied in the children and each child has its "
          "own working directory; compat.enable_links is applied; health checks, deadlines and the example database are off; the API script is a pure function of "
          "(method, target, body)")
